@@ -34,6 +34,13 @@ impl InputVariant {
         }
     }
 
+    /// Whether code generation can produce a `FromMeta` match arm for this variant:
+    /// unit, newtype and struct variants are supported, other tuple variants are not
+    /// unless the variant is skipped.
+    pub(crate) fn is_supported_by_from_meta(&self) -> bool {
+        self.skip.unwrap_or_default() || !self.data.is_tuple() || self.data.is_newtype()
+    }
+
     pub fn from_variant(v: &syn::Variant, parent: Option<&Core>) -> Result<Self> {
         let mut starter = (InputVariant {
             ident: v.ident.clone(),
